@@ -8,6 +8,8 @@ import json, os, subprocess, sys, shutil, tempfile, xml.etree.ElementTree as ET
 from pathlib import Path
 
 change_dir = Path(sys.argv[1]); prop = sys.argv[2]; name = sys.argv[3]
+# commits of /repo the stored changes were written for (newest first): round 3, rounds 1+2, before the lazy-logging repair
+BASE_COMMITS = ["8fb63a3", "1e5babd", "cc14e90", "d3ce8dc"]
 no_suite = "--no-suite" in sys.argv
 recheck = "--recheck" in sys.argv and (change_dir / "verification.json").exists()
 wt = Path("/tmp/vwt") / name
@@ -24,6 +26,16 @@ if recheck:
 try:
     patch = change_dir / "patch.diff"
     r = subprocess.run(["git", "-C", str(wt), "apply", "--whitespace=nowarn", str(patch)], capture_output=True, text=True)
+    base_head = subprocess.run(["git", "-C", "/repo", "rev-parse", "HEAD"], capture_output=True, text=True).stdout.strip()
+    if r.returncode != 0:
+        # later repairs in /repo touched the same lines: evaluate the change on the commit it was written for
+        for cand in BASE_COMMITS:
+            subprocess.run(["git", "-C", str(wt), "checkout", "-q", "--detach", cand], check=True)
+            r = subprocess.run(["git", "-C", str(wt), "apply", "--whitespace=nowarn", str(patch)], capture_output=True, text=True)
+            if r.returncode == 0:
+                base_head = subprocess.run(["git", "-C", str(wt), "rev-parse", "HEAD"], capture_output=True, text=True).stdout.strip()
+                out["evaluated_on_commit"] = base_head[:10]
+                break
     out["applies"] = r.returncode == 0
     if r.returncode != 0:
         out["apply_error"] = r.stderr[-500:]
@@ -56,8 +68,10 @@ try:
         out["suite_missing"] = missing[:10]
         out["suite_ok"] = not missing
     # /verif checks against the patched tree (relative to what they report on the unpatched HEAD)
-    head = subprocess.run(["git", "-C", "/repo", "rev-parse", "HEAD"], capture_output=True, text=True).stdout.strip()
+    head = base_head
     base_file = Path(f"/tmp/vwt_baseline_{head[:10]}.json")
+    if not base_file.exists():
+        subprocess.run(["/venv/bin/python", "/verif/tools/seeded_baseline.py", head], stdout=subprocess.DEVNULL, stderr=subprocess.DEVNULL)
     baseline = json.loads(base_file.read_text()) if base_file.exists() else {}
     fired = {}
     venv = dict(os.environ, VERIF_REPO=str(wt))
